@@ -252,3 +252,30 @@ def arith(rng, s):
         t -= 0.25 * (np.asarray(t) > 1)                  # a small background subtracted
         tag = 'background'
     return t, tag
+
+
+def edit_in_place(rng, s):
+    """The caller changes the values of its own container in place (flooring zeros, adding an offset, rescaling,
+    reversing the event order, overwriting one column): the same object, other values.  -> tag."""
+    op = int(rng.integers(5))
+    a = np.asarray(s)
+    if a.size == 0:
+        return 'empty'
+    if op == 0:
+        s[...] = np.where(a <= 0, 1, a)
+        return 'floored'
+    if op == 1:
+        s += 1
+        return 'offset'
+    if op == 2:
+        s[...] = a[::-1].copy()
+        return 'reversed'
+    if op == 3:
+        s[...] = (a // 2 + 1) if a.dtype.kind in 'iu' else (a * 0.5 + 1.0)
+        return 'rescaled'
+    j = int(rng.integers(a.shape[1])) if a.ndim == 2 else None
+    if j is None:
+        s[...] = a[0]
+    else:
+        s[:, j] = a[:, (j + 1) % a.shape[1]].astype(a.dtype)
+    return 'column-overwritten'
